@@ -34,4 +34,48 @@ PROPERTIES = {
         ],
         "rule": "a case = one ordered pair of operand shapes with position-coded values and the listed element-wise operations; distinct by program hash; non-trivial = at least one operation admitted or refused by the broadcasting rule",
     },
+    "C16": {
+        "level_text": "TLC evaluates the TLA+ definitions of construction (LeafOK, nested concatenation), row-major layout (Flatten/Unflat) and equality on all 120 shapes of rank 1..4 / sizes 1..3 - every in-range multi-index and flat index, zero / ragged / miscounted constructions, nesting depth 1..4 - and the trace specification requires the real crate's values, refusals and equality answers to equal them",
+        "level_note": TRACE_NOTE,
+        "technique": "TLA+ spec as exhaustive case oracle + TLC trace validation of executions of the real crate",
+        "families": lambda tier, seed: [
+            {"name": "construct_index_eq", "cases": FS.c16_cases(tier, seed), "exhaustive": True,
+             "what": "all shapes rank<=4 sizes<=3: dims+values / zeros / flat / nested constructors, every index, refusals, equality across tracking state, graph and gradient",
+             "require": {"judged": 3000, "refusals": 300, "owned": 20}},
+        ],
+        "rule": "a case = one shape with its constructions, all of its indices, or one equality scenario; distinct by program hash",
+    },
+    "C07": {
+        "level_text": "TLC evaluates the TLA+ definitions of sum(k), sum_all, reshape (and its refusal) and the point-wise operations on all 120 shapes of rank 1..4 / sizes 1..3 with every k, every factorisation as reshape target and the listed scalar parameters; the trace specification requires the real crate's dims and values (bit for bit in the exact domain) to equal them; transcendental functions are judged through spec-generated symbolic definitions (real domain)",
+        "level_note": TRACE_NOTE,
+        "technique": "TLA+ spec as exhaustive case oracle + TLC trace validation of executions of the real crate",
+        "families": lambda tier, seed: [
+            {"name": "reduce_reshape_pointwise", "cases": FS.c07_cases(tier, seed), "exhaustive": True,
+             "what": "all shapes rank<=4 sizes<=3 x sum(k) for every k, sum_all, reshape to every factorisation and to refused targets, neg/scale/powf(n)/reciprocal/relu on dyadic values",
+             "require": {"judged": 3000, "refusals": 300}},
+        ],
+        "rule": "a case = one shape with all reductions and point-wise operations, or one shape with its reshape targets; distinct by program hash",
+    },
+    "C05": {
+        "level_text": "TLC evaluates the TLA+ index-formula definition of the batched, optionally transposed matrix product with additive term (TensorCore!Matmul, MatmulShape) on an enumeration of (rows, inner, cols) in 1..3 x 4 flag pairs x 49 leading-dimension patterns x 7 additive-term forms, inner-dimension mismatches and the rank-1 forms; the trace specification requires the real crate's dims, every element (bit for bit) or refusal to equal it",
+        "level_note": TRACE_NOTE + "; forms the property leaves undefined (two rank-1 operands with a flag, additive terms with leading dimensions) are never judged",
+        "technique": "TLA+ spec as case oracle + TLC trace validation of executions of the real crate",
+        "families": lambda tier, seed: [
+            {"name": "matmul", "cases": FS.c05_cases(tier, seed),
+             "what": "seeded sample of the 37044-point space sizes<=3 x flags x leading patterns x additive forms, all inner mismatches, rank-1 forms, random sizes up to 5",
+             "require": {"judged": 1000, "refusals": 100}},
+        ],
+        "rule": "a case = one operand-shape / flag / additive-term combination with position-coded integer values; distinct by program hash",
+    },
+    "C06": {
+        "level_text": "TLC evaluates the direct sliding-window definition of convolution (TensorCore!Conv, no im2col in the specification) over image sizes 1..5, depth 1..2, filter count 1..2, filters up to 3x3, both strides 1..3 independently and batch absent / 1 / 2 / 3 / [2,2]; the trace specification requires the real crate's dims and every element (bit for bit) to equal it",
+        "level_note": TRACE_NOTE + "; filters larger than the image and zero strides are not defined by the property and never judged",
+        "technique": "TLA+ spec as case oracle + TLC trace validation of executions of the real crate",
+        "families": lambda tier, seed: [
+            {"name": "conv", "cases": FS.c06_cases(tier, seed),
+             "what": "seeded sample of the enumerated space (image<=5x5, depth<=2, count<=2, filter<=3x3, strides 1..3, five batch forms), depth mismatches, random larger images",
+             "require": {"judged": 1000, "refusals": 50}},
+        ],
+        "rule": "a case = one image/filter/stride/batch combination with integer values; distinct by program hash",
+    },
 }
